@@ -179,6 +179,166 @@ pub trait Harness: Sync {
     fn components(&self) -> Value;
     /// relative cost weight for distributing the run budget
     fn quick_runs(&self) -> u64;
+    /// run every simulation in a forked child of the (warmed-up) worker: process-global state
+    /// (id counters, lazily initialised statics, registries) is then identical at the start of each
+    /// run, and a crash (SIGSEGV, abort) of the code under test is an observable outcome
+    fn isolate(&self) -> bool {
+        false
+    }
+    /// called once per process before the first (forked) run
+    fn warm_up(&self) {}
+}
+
+#[derive(Serialize, Deserialize)]
+struct RunOut {
+    outcome: String,
+    outcome_detail: String,
+    outcome_thread: usize,
+    fingerprint: u64,
+    sched_sig: u64,
+    counters: [u64; 10],
+    deviations: Vec<DevSer>,
+    log_tail: Vec<String>,
+    violation: Option<Violation>,
+    beyond: Option<Violation>,
+    probes: Vec<(String, u64)>,
+    inconclusive: bool,
+}
+
+fn intern(s: &str) -> &'static str {
+    static TABLE: std::sync::Mutex<Vec<&'static str>> = std::sync::Mutex::new(Vec::new());
+    let mut t = TABLE.lock().unwrap();
+    if let Some(x) = t.iter().find(|x| **x == s) {
+        return x;
+    }
+    let l: &'static str = Box::leak(s.to_string().into_boxed_str());
+    t.push(l);
+    l
+}
+
+fn to_out(r: &RunResult) -> RunOut {
+    let (o, d, t) = match &r.report.outcome {
+        Outcome::Ok => ("ok".to_string(), String::new(), 0),
+        Outcome::StepCap => ("stepcap".to_string(), String::new(), 0),
+        Outcome::Deadlock { blocked } => ("deadlock".to_string(), blocked.iter().map(|b| b.to_string()).collect::<Vec<_>>().join(","), 0),
+        Outcome::Panic { thread, msg } => ("panic".to_string(), msg.clone(), *thread),
+    };
+    let rp = &r.report;
+    RunOut {
+        outcome: o,
+        outcome_detail: d,
+        outcome_thread: t,
+        fingerprint: rp.fingerprint,
+        sched_sig: rp.sched_sig,
+        counters: [rp.steps, rp.switches, rp.stale_reads, rp.splits, rp.kills, rp.cas_spurious, rp.chooses, rp.decisions, rp.sim_time_ns, rp.threads as u64],
+        deviations: devs_to_ser(&rp.deviations),
+        log_tail: rp.log_tail.clone(),
+        violation: r.violation.clone(),
+        beyond: r.beyond.clone(),
+        probes: r.probes.iter().map(|(k, v)| (k.to_string(), *v)).collect(),
+        inconclusive: r.inconclusive,
+    }
+}
+
+fn from_out(o: RunOut) -> RunResult {
+    let outcome = match o.outcome.as_str() {
+        "ok" => Outcome::Ok,
+        "stepcap" => Outcome::StepCap,
+        "deadlock" => Outcome::Deadlock { blocked: o.outcome_detail.split(',').filter_map(|x| x.parse().ok()).collect() },
+        _ => Outcome::Panic { thread: o.outcome_thread, msg: o.outcome_detail.clone() },
+    };
+    let c = o.counters;
+    RunResult {
+        report: Report {
+            outcome,
+            fingerprint: o.fingerprint,
+            sched_sig: o.sched_sig,
+            steps: c[0],
+            switches: c[1],
+            stale_reads: c[2],
+            splits: c[3],
+            kills: c[4],
+            cas_spurious: c[5],
+            chooses: c[6],
+            decisions: c[7],
+            deviations: ser_to_devs(&o.deviations),
+            sim_time_ns: c[8],
+            threads: c[9] as usize,
+            log_tail: o.log_tail,
+        },
+        violation: o.violation,
+        beyond: o.beyond,
+        probes: o.probes.iter().map(|(k, v)| (intern(k), *v)).collect(),
+        inconclusive: o.inconclusive,
+    }
+}
+
+fn crashed_result(what: String) -> RunResult {
+    RunResult {
+        report: Report { outcome: Outcome::Panic { thread: 0, msg: what.clone() }, fingerprint: hash_str(&what), sched_sig: 0, steps: 0, switches: 0, stale_reads: 0, splits: 0, kills: 0, cas_spurious: 0, chooses: 1, decisions: 0, deviations: vec![], sim_time_ns: 0, threads: 0, log_tail: vec![] },
+        violation: viol("process-crash", what),
+        beyond: None,
+        probes: vec![],
+        inconclusive: false,
+    }
+}
+
+/// Execute one run of `h`, in a forked child if the harness asks for isolation.
+pub fn execute(h: &dyn Harness, plan: &Plan, cfg: &CfgSer, dec: Decisions) -> RunResult {
+    if !h.isolate() {
+        return h.execute(plan, cfg, dec);
+    }
+    static WARM: std::sync::Mutex<Vec<String>> = std::sync::Mutex::new(Vec::new());
+    {
+        let mut w = WARM.lock().unwrap();
+        if !w.iter().any(|n| n == h.name()) {
+            h.warm_up();
+            w.push(h.name().to_string());
+        }
+    }
+    let mut fds = [0i32; 2];
+    if unsafe { libc::pipe(fds.as_mut_ptr()) } != 0 {
+        return crashed_result("pipe() failed".into());
+    }
+    let pid = unsafe { libc::fork() };
+    if pid < 0 {
+        return crashed_result("fork() failed".into());
+    }
+    if pid == 0 {
+        // child
+        unsafe { libc::close(fds[0]) };
+        let r = h.execute(plan, cfg, dec);
+        let s = serde_json::to_vec(&to_out(&r)).unwrap_or_default();
+        let mut off = 0;
+        while off < s.len() {
+            let n = unsafe { libc::write(fds[1], s[off..].as_ptr() as *const libc::c_void, s.len() - off) };
+            if n <= 0 {
+                break;
+            }
+            off += n as usize;
+        }
+        unsafe { libc::_exit(0) };
+    }
+    unsafe { libc::close(fds[1]) };
+    let mut buf = Vec::new();
+    let mut tmp = [0u8; 65536];
+    loop {
+        let n = unsafe { libc::read(fds[0], tmp.as_mut_ptr() as *mut libc::c_void, tmp.len()) };
+        if n <= 0 {
+            break;
+        }
+        buf.extend_from_slice(&tmp[..n as usize]);
+    }
+    unsafe { libc::close(fds[0]) };
+    let mut status = 0i32;
+    unsafe { libc::waitpid(pid, &mut status, 0) };
+    match serde_json::from_slice::<RunOut>(&buf) {
+        Ok(o) => from_out(o),
+        Err(_) => {
+            let what = if libc::WIFSIGNALED(status) { format!("the process running the scenario was killed by signal {}", libc::WTERMSIG(status)) } else { format!("the process running the scenario exited with status {} without a result", libc::WEXITSTATUS(status)) };
+            crashed_result(what)
+        }
+    }
 }
 
 pub fn devs_to_ser(d: &[Dev]) -> Vec<DevSer> {
@@ -328,7 +488,7 @@ pub fn worker(h: &dyn Harness, verif_seed: u64, from: u64, to: u64, only_mode: O
     let mut nviol = 0usize;
     for index in from..to {
         let (rs, mode, deciding, plan, cfg) = derive_run(h, verif_seed, index, only_mode);
-        let res = h.execute(&plan, &cfg, Decisions::Seeded(rs));
+        let res = execute(h, &plan, &cfg, Decisions::Seeded(rs));
         let rep = &res.report;
         if std::env::var("VSIM_FPS").is_ok() {
             eprintln!("FP {index} {:016x} steps={}", rep.fingerprint, rep.steps);
@@ -410,7 +570,7 @@ pub fn worker(h: &dyn Harness, verif_seed: u64, from: u64, to: u64, only_mode: O
 // replay + minimise (run inside a child process)
 
 pub fn exec_replay(h: &dyn Harness, rf: &ReplayFile) -> RunResult {
-    h.execute(&rf.plan, &rf.cfg, Decisions::Replay(ser_to_devs(&rf.deviations)))
+    execute(h, &rf.plan, &rf.cfg, Decisions::Replay(ser_to_devs(&rf.deviations)))
 }
 
 fn same_class(res: &RunResult, class: &str) -> bool {
